@@ -96,8 +96,9 @@ type fakeClient struct {
 	inflight    atomic.Int32
 	maxInflight atomic.Int32
 	// optional real pieces (hybrid: fake streams, real rollback-mitigation polling on a simulated cluster)
-	agent  *gocbcore.Agent
-	snapFn func() (*gocbcore.ConfigSnapshot, error)
+	agent   *gocbcore.Agent
+	snapFn  func() (*gocbcore.ConfigSnapshot, error)
+	seqOmit map[uint16]bool // vBuckets missing from the sequence-number sample
 }
 
 func newFakeClient(numVb int) *fakeClient {
@@ -125,6 +126,9 @@ func (f *fakeClient) GetVBucketSeqNos(bool) (*wrapper.ConcurrentSwissMap[uint16,
 	}
 	m := wrapper.CreateConcurrentSwissMap[uint16, uint64](uint64(f.numVb))
 	for i := 0; i < f.numVb; i++ {
+		if f.seqOmit[uint16(i)] {
+			continue // no node reported this vBucket as active (the real query merges per-node answers)
+		}
 		m.Store(uint16(i), f.high[uint16(i)])
 	}
 	return m, nil
